@@ -77,7 +77,10 @@ class SignedCertificateTimestamp(ParsableBase, Serializable):
         body_parser.parse_parsable('signature_algorithm', TlsSignatureAndHashAlgorithmFactory)
         body_parser.parse_parsable('signature', CtSignature)
 
-        return cls(**body_parser), header_parser.parsed_length
+        try:
+            return cls(**body_parser), header_parser.parsed_length
+        except TypeError as e:
+            six.raise_from(InvalidValue(header_parser['sct'], cls), e)
 
     def compose(self):
         body_composer = ComposerBinary()
